@@ -185,9 +185,35 @@ def ranked_root(rng, n=None, chain=None, cyc=False):
         if sub.get(k) and rng.random() < 0.4:
             return k + ':' + rng.choice(sub[k])
         return k
+    # pointer mode: key `ptr` holds the path of r0 (or a sub-path); fully indirect references
+    # ${${ptr}} select it, and the selected value itself mentions ${ptr} again (acyclic: ptr is plain text)
+    ptrmode = (not chain) and rng.random() < 0.2
+    ptr_path = None
     for i, k in enumerate(keys):
         refs = []
-        if i == 0 or rng.random() < 0.25:
+        if ptrmode and i == 0:
+            if rng.random() < 0.7:
+                v = ('m', [(S('x'), scalar(rng)), (S('by'), S(rng.choice(['${ptr}', 'via-${ptr}']))),
+                           (S('z'), ('m', [(S('w'), scalar(rng)), (S('by'), S('${ptr}'))]))])
+                sub[k] = ['x', 'z', 'z:w']
+                ptr_path = rng.choice(['r0', 'r0:z', 'r0:by'])
+            else:
+                v = ('l', [scalar(rng), S('${ptr}'), S('<${ptr}>')])
+                ptr_path = 'r0'
+            entries.append((S('ptr'), S(ptr_path)))
+        elif ptrmode and rng.random() < 0.4:
+            r = rng.random()
+            if r < 0.6:
+                v = S('${${ptr}}')
+                refs.append(('whole', ptr_path))
+            elif r < 0.8:
+                v = ('l', [S('${${ptr}}')])
+                refs.append(('list', ptr_path))
+            else:
+                v = S('${%s}' % keys[rng.randint(0, i - 1)])
+                layers2.append((S(k), S('${${ptr}}')))
+                refs.append(('layer', ptr_path))
+        elif i == 0 or rng.random() < 0.25:
             # a base value
             r = rng.random()
             if r < 0.35:
